@@ -52,6 +52,10 @@ namespace
         if (t.k == "tsd") return r.tsd(scalar_meta(t.c[0].k), ts_meta(t.c[1]));
         if (t.k == "tsl") return r.tsl(ts_meta(t.c[0]), static_cast<std::size_t>(std::stoul(t.size)));
         if (t.k == "sig") return r.signal();
+        // three bundle types of the SAME shape {x: TS<Int>}: two named ones and the structural one; they are different types
+        if (t.k == "bA") return r.tsb("C19BundleA", {{"x", r.ts(scalar_meta("I"))}});
+        if (t.k == "bB") return r.tsb("C19BundleB", {{"x", r.ts(scalar_meta("I"))}});
+        if (t.k == "bU") return r.un_named_tsb({{"x", r.ts(scalar_meta("I"))}});
         throw verif::HarnessError("ts meta " + t.str());
     }
     ScalarPattern scalar_pattern(const Ty &t)
@@ -166,6 +170,7 @@ namespace
         add("tsl_int_2", tsl(ts(leaf("I")), "2"), ts(leaf("I")));
         add("tsl_T_N", tsl(ts(leaf("$T")), "#N"), ts(leaf("$T")));
         add("tsl_S_N", tsl(leaf("%S"), "#N"), leaf("%S"));
+        add("tsl_int_M", tsl(ts(leaf("I")), "#M"), ts(leaf("I")));   // a size variable spelled differently from the others
         add("tss_T", tss(leaf("$T")), ts(leaf("$T")));
         add("tsd_K_V", tsd(leaf("$K"), leaf("%V")), leaf("%V"));
         add("tsd_int_V", tsd(leaf("I"), leaf("%V")), leaf("%V"));
@@ -190,7 +195,7 @@ namespace
     std::vector<Ty> arg_types()
     {
         return {ts(leaf("I")), ts(leaf("F")), ts(leaf("S")), tsl(ts(leaf("I")), "2"), tsl(ts(leaf("I")), "3"), tsl(ts(leaf("F")), "2"), tsl(ts(leaf("I")), "0"),
-                tss(leaf("I")), tsd(leaf("I"), ts(leaf("I"))), tsd(leaf("S"), ts(leaf("F"))), leaf("sig")};
+                tss(leaf("I")), tsd(leaf("I"), ts(leaf("I"))), tsd(leaf("S"), ts(leaf("F"))), leaf("sig"), leaf("bA"), leaf("bB"), leaf("bU"), tsl(leaf("bA"), "2")};
     }
 
     WiringArg ts_arg(const TSValueTypeMetaData *schema)
@@ -204,7 +209,15 @@ namespace
     struct Outcome { std::string result; std::optional<std::string> violation; };   // result: "W:<label>" | "E:none" | "E:ambiguous" | "E:other"
 
     /** Register the family in the given order and resolve; verify clauses 2-5 against the reference. */
-    Outcome resolve_family(const std::vector<Cand> &pool, const std::vector<int> &order, const std::vector<Ty> &args)
+    std::string first_size_var(const Cand &c)
+    {
+        std::string found;
+        std::function<void(const Ty &)> scan = [&](const Ty &t) { if (found.empty() && !t.size.empty() && t.size[0] == '#') found = t.size; for (auto &ch : t.c) scan(ch); };
+        for (auto &p : c.params) scan(p);
+        if (c.out) scan(*c.out);
+        return found;
+    }
+    Outcome resolve_family(const std::vector<Cand> &pool, const std::vector<int> &order, const std::vector<Ty> &args, int hint = 0)
     {
         Outcome o;
         auto &reg = OperatorRegistry::instance();
@@ -231,12 +244,15 @@ namespace
         {
             const Cand &c = pool[static_cast<std::size_t>(idx)];
             Bind b; bool ok = c.params.size() == args.size();
+            // a caller-pinned SIZE (one hint) binds the candidate's first size variable before matching
+            if (hint != 0) { const std::string sv = first_size_var(c); if (!sv.empty()) b[sv] = std::to_string(hint); }
             for (std::size_t i = 0; ok && i < args.size(); ++i) ok = unify(c.params[i], args[i], b);
             if (ok) matches[c.label] = b;
         }
         ResolvedOperatorCall res;
         std::string err;
-        try { res = reg.resolve("c19_op", std::span<const WiringArg>{wargs}); }
+        const std::size_t hints[1] = {static_cast<std::size_t>(hint)};
+        try { res = hint == 0 ? reg.resolve("c19_op", std::span<const WiringArg>{wargs}) : reg.resolve("c19_op", std::span<const WiringArg>{wargs}, std::nullopt, nullptr, std::span<const std::size_t>{hints, 1}); }
         catch (const OperatorResolutionError &e) { err = e.what(); }
         if (!err.empty())
         {
@@ -342,6 +358,7 @@ namespace
         const std::vector<Cand> pool = arity == 1 ? candidates1() : candidates2();
         std::vector<int> fam; { std::string cur; for (char ch : parts.at(1)) { if (ch == ',') { fam.push_back(std::stoi(cur)); cur.clear(); } else cur += ch; } fam.push_back(std::stoi(cur)); }
         std::vector<Ty> args; { const auto at = arg_types(); std::string cur; for (char ch : parts.at(2)) { if (ch == ',') { args.push_back(at[static_cast<std::size_t>(std::stoi(cur))]); cur.clear(); } else cur += ch; } args.push_back(at[static_cast<std::size_t>(std::stoi(cur))]); }
+        const int hint = parts.size() > 3 && !parts[3].empty() ? std::stoi(parts[3].substr(1)) : 0;
         std::sort(fam.begin(), fam.end());
         std::string first;
         std::optional<std::string> violation;
@@ -349,7 +366,7 @@ namespace
         do
         {
             if (resolves) ++*resolves;
-            Outcome o = resolve_family(pool, order, args);
+            Outcome o = resolve_family(pool, order, args, hint);
             std::string ord; for (int i : order) ord += pool[static_cast<std::size_t>(i)].label + " ";
             if (o.violation && !violation) violation = "[registration order: " + ord + "] " + *o.violation;
             if (first.empty()) first = o.result;
@@ -387,8 +404,18 @@ void verif_enumerate(verif::Ctx &ctx)
             for (std::size_t a0 = 0; a0 < nargs; ++a0)
                 for (std::size_t a1 = 0; a1 < (arity == 2 ? nargs : 1); ++a1)
                 {
+                  for (int hint : {0, 2, 3})
+                  {
+                    if (hint != 0)
+                    {
+                        // size hints only matter for families with a size-variable candidate and list arguments
+                        bool sized = false;
+                        const auto pool = arity == 1 ? candidates1() : candidates2();
+                        for (int ci : fam) if (!first_size_var(pool[static_cast<std::size_t>(ci)]).empty()) sized = true;
+                        if (!sized || arg_types()[a0].k != "tsl") continue;
+                    }
                     if (!ctx.next_is_mine()) continue;
-                    const std::string desc = std::to_string(arity) + "|" + fs + "|" + std::to_string(a0) + (arity == 2 ? "," + std::to_string(a1) : std::string{});
+                    const std::string desc = std::to_string(arity) + "|" + fs + "|" + std::to_string(a0) + (arity == 2 ? "," + std::to_string(a1) : std::string{}) + (hint ? "|h" + std::to_string(hint) : std::string{});
                     ++ctx.evaluations;
                     std::string sig; bool nt = false; std::uint64_t resolves = 0;
                     auto v = run_family_case(desc, &sig, &nt, &resolves);
@@ -404,6 +431,8 @@ void verif_enumerate(verif::Ctx &ctx)
                         ctx.violation(desc, *v, v->substr(v->find("] ") == std::string::npos ? 0 : v->find("] ") + 2, 60));
                     }
                     else if (ctx.evaluations % 9973 == 1) ctx.sample("cases", desc + " => " + sig);
+                    if (hint) ctx.count("cases_with_size_hint");
+                  }
                 }
         }
     }
